@@ -192,6 +192,7 @@ func run(e *hx.Env) *hx.Report {
 			rep.Sample(map[string]interface{}{"corpus": base, "flows": len(res.Flows), "signatures": res.Sigs})
 		}
 	}
+	policy.ManyPorts = true
 	// ---- generated cases
 	n := e.N(150, 20000)
 	bt := policy.NewBatch(e, rep, prop)
@@ -200,6 +201,12 @@ func run(e *hx.Env) *hx.Report {
 	for i := 0; i < n; i++ {
 		tame := i%3 == 0
 		c, ps := policy.GenCase(e.Rng, tame)
+		for policy.KeyClash(ps) {
+			// a rule listing one network both as cidr and as except: the kernel set holds ONE element per key and flips
+			// on every sync (report; theorem ipset_entries_counter_key_clash) — outside the compared inputs
+			rep.Hit("generated:key-clash-skipped")
+			c, ps = policy.GenCase(e.Rng, tame)
+		}
 		flows := policy.Flows(c, ps)
 		results = append(results, bt.Add(fmt.Sprintf("s%d-c%d", e.Seed, i), c, ps, flows))
 		if tame {
